@@ -34,8 +34,8 @@ class Check(RecordingCheck):
 
     def correspond(self):
         n = 70 if self.tier == "quick" else 900
-        self.mismatches = self.correspond_ops(n, 0.45, "C03")
-        self.correspond_traces("C03t")
+        self.mismatches = self.correspond_ops(n, 0.45, f"C03_{os.getpid()}")
+        self.correspond_traces(f"C03t_{os.getpid()}")
 
     # ------------------------------------------------------------------ oracle
     def oracle(self):
